@@ -30,7 +30,11 @@ SPECIAL = [
     '~{1!~} caf\u00e9', '+AGE-+AGI- d\u00e9j\u00e0', '\ufeffBOM inside',
     # two machine-specific things on one line
     'copied {CWD}/in.dat to {TMPDIR}/out.dat', '{USER}@{HOST}:{HOME}',
-    'schema {TODAY_YY} status ok']
+    'schema {TODAY_YY} status ok',
+    # month names as people abbreviate them
+    '12 Sept 2019', 'Sept 3, 2021 report', 'June 1 2020', '3 Sep. 2019',
+    # a path under the home directory (which may hold the user's name)
+    'cache at {HOME}/.cache/app n=12']
 # extra (ignored) arguments on the command line: they end up, quoted, in the
 # command string that gentest embeds in the generated script
 CMD_ARGS = ['plain', 'two words', "it's", 'say "hi"', 'C:\\Users\\x', '\\N{x}',
@@ -239,6 +243,9 @@ class Workdir(object):
         self.p = os.path.join(root, 'payload')
         self.tmp = os.path.join(root, 'gt-tmp')
         self.home = os.path.join(root, 'home')
+        if len(case['stdout']) % 2 == 1:
+            # the home directory's path holds the user's name
+            self.home = os.path.join(root, 'home', 'tvuserzq')
         if len(case['stderr']) % 2 == 1:
             # the working directory lies under the home directory
             self.home = root
@@ -344,6 +351,11 @@ class Workdir(object):
         lines = ['cat "%s"' % self.payload_path('stdout.txt'),
                  'cat "%s" 1>&2' % self.payload_path('stderr.txt')]
         sub = TMPDIR_HOWS.get(self.case['how'])
+        if sub is None and len(self.case['stderr']) % 3 == 0 and (
+                self.case['n'] >= 2):
+            # the scratch area is named, but nothing is written there
+            # (with one run only gentest cannot tell that the name varies)
+            lines.append('echo "scratch area $TMPDIR"')
         if sub:
             lines.append('mkdir -p "$TMPDIR/%s"' % sub)
         for (i, fl) in enumerate(self.case['files']):
